@@ -37,13 +37,17 @@ def scope(tier):
                       vertex_kinds=(4 if tier == "quick" else 7)))
 
 
-def ranges(cap):
-    return [(a, b) for a in range(cap) for b in range(a + 1, cap + 1)]
+def ranges(cap, empty=False):
+    out = [(a, b) for a in range(cap) for b in range(a + 1, cap + 1)]
+    if empty:
+        # zero-size reservations reserve nothing (anywhere inside the range)
+        out += [(a, a) for a in range(0, cap + 1, 2)]
+    return out
 
 
 def disjoint_lists(cap, k):
     """Every ordered list of <= k pairwise disjoint non-empty ranges."""
-    rs = ranges(cap)
+    rs = ranges(cap, empty=True)
     out = [()]
     for n in range(1, k + 1):
         for combo in itertools.permutations(rs, n):
@@ -62,7 +66,7 @@ def shards(tier):
     out = []
     sc = scope(tier)
     k = sc["family_A"]["max_reservations"]
-    for first in [None] + ranges(8):
+    for first in [None] + ranges(8, empty=True):
         out.append(dict(fam="A", first=first, k=k))
     nk = sc["family_B"]["vertex_kinds"]
     for al in sc["family_B"]["alignments"]:
